@@ -387,6 +387,8 @@ class CallMixin:
 
     # ---- methods
     def call_method(self, recv, m, args, kw, node):
+        if recv.bot:
+            return BOT
         res = []
         handled = False
         if recv.may('obj') and recv.cls and recv.cls.startswith('teneva:'):
@@ -568,6 +570,11 @@ class CallMixin:
             r = FRESHANY
         else:
             r = self.instantiate(parse_spec(case.returns), bound, label, node)
+            if case.ndim_from and r.only('arr'):
+                sh = bound.get(case.ndim_from)
+                nd = models.shape_ndim(self, sh) if sh is not None else None
+                if nd is not None:
+                    r = r.but(ndim=nd)
         if case.retains:
             orgs = set()
             for p in case.retains:
@@ -626,7 +633,11 @@ class CallMixin:
             p = spec.alias
             deep = p.endswith('[]')
             p = p[:-2] if deep else p
-            a = bound.get(p)
+            if '.' in p:                     # '~self.attr': the state stored in that attribute
+                o = bound.get(p.split('.')[0])
+                a = self.obj_attr(o, p.split('.', 1)[1], node) if (o is not None and o.cls and o.cls.startswith('teneva:')) else o
+            else:
+                a = bound.get(p)
             if a is not None and not a.bot:
                 if deep:
                     a = self.elem_of(a)
@@ -702,21 +713,29 @@ class CallMixin:
             return AV(ALLK, org=base.org, via=base.via)
         from frames.domain import param_av
         if is_self:
-            v = param_av(spec, '\0', {})
-            return self._retag(v, 'S:' + attr, attr)
+            return self.self_attr_av(attr, spec)
         # attribute of another instance: its state is whatever the object may reach
         v = param_av(spec, '\0', {})
         reach = self.deep_orgs(base)
         return self._retag2(v, reach)
 
-    def _retag(self, v, origin, attr):
+    def self_attr_av(self, attr, spec):
+        """declared value of self.<attr>; installs the heap entries S:<attr> / S:<attr>[] on first use"""
+        from frames.domain import param_av
+        tmp = {}
+        v = param_av(spec, '\0', tmp)
+        m = {'P:\0': 'S:' + attr, 'E:\0': 'S:' + attr + '[]'}
+
         def fix(a):
             if a is None:
                 return None
-            org = {origin for o in a.org}
-            gen = {'attr' if g == 'param' else g for g in a.gen}
-            return a.but(org=org, gen=gen, items=[fix(i) for i in a.items] if a.items is not None else None,
-                         elem=fix(a.elem), fn=[t for t in a.fn if t[0] != 'cb'])
+            return a.but(org={m.get(o, o) for o in a.org}, gen={'attr' if g == 'param' else g for g in a.gen},
+                         items=[fix(i) for i in a.items] if a.items is not None else None, elem=fix(a.elem),
+                         fn=[t for t in a.fn if t[0] != 'cb'])
+        for site, hv in tmp.items():
+            s2 = m.get(site, site)
+            if s2 not in self.state.heap:
+                self.state.heap[s2] = fix(hv)
         return fix(v)
 
     def _retag2(self, v, reach):
